@@ -134,6 +134,16 @@ func (c *ColMap[K, V]) DecodeColumn(r *Reader, rows int) error {
 		return errors.Wrap(err, "offsets")
 	}
 
+	// Offsets are cumulative, so they should never decrease. Otherwise,
+	// row accessors will go out of bounds of keys and values columns.
+	var prev uint64
+	for i, offset := range c.Offsets {
+		if offset < prev {
+			return errors.Errorf("offset [%d] (%d) is less than previous (%d)", i, offset, prev)
+		}
+		prev = offset
+	}
+
 	count := int(c.Offsets[rows-1])
 	if err := checkRows(count); err != nil {
 		return errors.Wrap(err, "keys count")
